@@ -275,6 +275,20 @@ def main(argv):
   tier = argv[1] if len(argv) > 1 else os.environ.get('VERIF_TIER', 'quick')
   if tier not in ('quick', 'thorough'):
     tier = 'quick'
+  if tier == 'thorough' and not os.environ.get('VERIF_SKIP_SELFTEST'):
+    # gate the deep run on the self-tests: determinism of a sample of this batch's seeds in three process layouts,
+    # and conformance of the stubs this engine relies on
+    os.environ['VERIF_SELFTEST_RUNS'] = os.environ.get('VERIF_SELFTEST_RUNS', '48')
+    if selftest_determinism(prop) != 0:
+      print(f'HARNESS-ERROR property={prop} determinism self-test failed; the deep run was not started')
+      return 2
+    which = {'C11': 'disk', 'C20': 'cond'}.get(prop)
+    if which:
+      p = subprocess.run([sys.executable, os.path.join(VERIF, 'sim', 'selftests.py'), which, '150'], capture_output=True, text=True, env=kernel.env_for_worker())
+      print((p.stdout.strip().splitlines() or ['(no output)'])[-1])
+      if p.returncode != 0:
+        print(f'HARNESS-ERROR property={prop} stub conformance self-test failed: {p.stdout[-1500:]}')
+        return 2
   rc, tot, out = run_check(prop, tier)
   return rc
 
